@@ -81,6 +81,7 @@ type c06Case struct {
 	Summary *c06Bound `json:"summary,omitempty"` // summary DATE instead of Cmd
 	Bin     bool      `json:"bin"`
 	LongOpt bool      `json:"longopt"`
+	FmtVia  string    `json:"fmtvia,omitempty"` // how the date format is given: "" flag, "env", "config"
 }
 
 func c06SortedLines(s string) string {
@@ -91,11 +92,21 @@ func c06SortedLines(s string) string {
 
 func checkC06(c c06Case, ctx *vCtx) *vFailure {
 	fmtArgs := []string{"--today", vFmtDay(c.Today, c.Layout)}
+	fmtEnv := map[string]string{}
 	if c.Layout != "" && c.Layout != "2006/01/02" {
-		fmtArgs = append(fmtArgs, "--date-format", c.Layout)
+		switch c.FmtVia {
+		case "env":
+			fmtEnv["HR_DATE_FORMAT"] = c.Layout
+		case "config":
+			fmtArgs = append(fmtArgs, "--config", vWriteFile("c06.conf", "[Global]\nDateFormat="+c.Layout+"\n"))
+		default:
+			fmtArgs = append(fmtArgs, "--date-format", c.Layout)
+		}
+		ctx.Label("date-format-via:" + c.FmtVia)
 	}
 	run := func(inv vInvocation) vRun {
 		ctx.Run(1)
+		inv.Env = fmtEnv
 		if c.Bin {
 			r := vRunBin(inv, 30*time.Second)
 			if r.Exit == -999 {
@@ -299,7 +310,8 @@ func genC06(t *rapid.T) c06Case {
 	c := c06Case{S: s, Layout: layout, Today: today,
 		TZ:      c06Zones[rapid.IntRange(0, len(c06Zones)-1).Draw(t, "tz")],
 		Bin:     rapid.IntRange(0, 29).Draw(t, "bin") == 0,
-		LongOpt: rapid.IntRange(0, 3).Draw(t, "long") == 0}
+		LongOpt: rapid.IntRange(0, 3).Draw(t, "long") == 0,
+		FmtVia:  []string{"", "", "env", "config"}[rapid.IntRange(0, 3).Draw(t, "fmtvia")]}
 	if rapid.IntRange(0, 7).Draw(t, "summary") == 0 {
 		b := genC06Bound(t, base, today, "sum")
 		if b.Kind == "" {
